@@ -171,6 +171,36 @@ def run(rep, model, tier, seed, broken=()):
                     if ncli_bad <= 2 and not rep.violations:
                         rep.violation(dict(kind="CLI: faulty file but exit status %d, files written: %s" % (rc, files),
                                            stderr=err, case=pipe.case_json(c)))
+            # several inputs on one command line: the unreadable file first, in the middle, last
+            # (Walk.run_inputs / RunFacts.abort_ends_run: the abort ends the run, non-zero status,
+            # no page for the faulty file, nothing for the inputs after it)
+            healthy = os.path.join(wd, "healthy.cmake")
+            with open(healthy, "wb") as f:
+                f.write(b"#[[[\n# ok\n#]]\nfunction(ok a)\nendfunction()\n")
+            healthy2 = os.path.join(wd, "healthy_two.cmake")
+            with open(healthy2, "wb") as f:
+                f.write(b"set(x y)\n")
+            for c in sample[:max(3, ncli // 4)]:
+                src = os.path.join(wd, "faulty.cmake")
+                with open(src, "wb") as f:
+                    f.write(c["data"])
+                for order in ([src, healthy], [healthy, src, healthy2], [healthy, src]):
+                    out = os.path.join(wd, "out_multi")
+                    shutil.rmtree(out, ignore_errors=True)
+                    env = dict(os.environ, PYTHONPATH=str(core.REPO / "src"))
+                    p = subprocess.run([core.PY, "-B", "-W", "ignore", str(core.REPO / "src" / "main.py"), "-o", out]
+                                       + order, stdout=subprocess.PIPE, stderr=subprocess.PIPE, env=env, timeout=120)
+                    written = sorted(os.listdir(out)) if os.path.isdir(out) else []
+                    expect = ["healthy.rst"] if order[0] == healthy else []
+                    rep.dist("cli_multi_input_runs")
+                    if p.returncode == 0 or "faulty.rst" in written or written != expect:
+                        ncli_bad += 1
+                        if ncli_bad <= 2 and not rep.violations:
+                            rep.violation(dict(
+                                kind="CLI with several inputs: faulty file but exit status %d, files written: %s "
+                                     "(expected non-zero and %s)" % (p.returncode, written, expect),
+                                argv_order=[os.path.basename(x) for x in order],
+                                stderr=p.stderr.decode("utf-8", "replace")[-300:], case=pipe.case_json(c)))
             rep.coverage["cli_bad"] = ncli_bad
         finally:
             shutil.rmtree(wd, ignore_errors=True)
